@@ -84,6 +84,12 @@ class ConsequentMonitor:
         except (W.RuleSyntax, IndexError):
             ctx.hit("out_of_domain:consequent outside the documented grammar")
             return
+        if any(len({t.name for t in v.terms}) != len(v.terms) for v in st["outs"].values()):
+            ctx.hit("out_of_domain:duplicate term names in a variable")
+            return
+        if "modify" in vars(rule.consequent) or "trigger" in vars(rule):
+            ctx.hit("out_of_domain:method replaced on the instance (mock)")
+            return
         ctx.evaluated()
         deg = st["degree"]
         case = {"rule": rule.text, "rule_enabled": st["enabled"], "degree": deg, "variables_enabled": {n: bool(v.enabled) for n, v in st["outs"].items()}}
